@@ -188,8 +188,17 @@ def r19_5(ctx):
         "loop-restart": "F" * MAX + "L" + "F" * (MAX + 1),
         "timeouts-and-errors": ("FE" * (MAX + 1))[:MAX + 1] + "S" + "E" * (MAX + 1),
     }
+    if ctx.run.tier == "thorough":
+        # every history of failed (timeout / EZSP error) and successful feeds up to length MAX + 3
+        import itertools
+
+        for n_ in range(1, MAX + 4):
+            for combo in itertools.product("FES", repeat=n_):
+                histories["all:" + "".join(combo)] = "".join(combo)
     for ver in (4, 8):
         for hname, hist in histories.items():
+            if hname.startswith("all:") and ver == 4:
+                continue
             step = {"i": 0}
 
             def keepalive(px_, t, a, k, fr):
@@ -238,6 +247,6 @@ def r19_5(ctx):
                 raise AnalysisError(f"watchdog history {hname}: {len(paths)} paths on fixed outcomes")
             p = paths[0]
             ctx.paths += 1
-            ctx.require(p.terminal == "return" and got == want, f"history:{hname}",
+            ctx.require(p.terminal == "return" and got == want, f"history:{'exhaustive' if hname.startswith('all:') else hname}",
                         f"v{ver}, feeds {hist} (F/E failed keep-alive, S success, L loop restart; tolerated run {MAX}): feeds raise at {''.join(got)}, must raise at "
                         f"{''.join(want)} ({p.terminal} {p.value if p.terminal == 'raise' else ''})", func=f, trace=p.trace(30))
